@@ -88,3 +88,26 @@ Theorem C03_same_content_same_frames_w : forall strict env (ops1 ops2 : list wop
   concat (run_framesw strict env s ops1) = concat (run_framesw strict env s ops2).
 Proof. exact same_content_same_framesw. Qed.
 Print Assumptions C03_same_content_same_frames_w.
+
+(* ---- "depends only on the content": how the transport cuts the stream decides how many iterations of the loop see
+   "nothing yet" between two PDUs.  Such an iteration (nothing complete from the peer, nothing from the local user, ARTIM
+   not expired) in a quiescent control state (no event queued, no outgoing message in progress, not in Sta4) changes
+   nothing and emits nothing, in every state any history can reach; so two histories that differ only in such iterations
+   end in the same control state with the same outputs in the same order (PDUs written, indications, transport opened and
+   closed, ARTIM started).  With C03_provider_frames / C03_provider_events (the PDU events ARE the frames of the content,
+   in order) this is the property's second clause up to what is genuinely timing: an ARTIM expiry or a local request
+   falling between different PDUs, or an outgoing message whose next fragment is written while the peer's PDU is still
+   incomplete. *)
+From PND Require Import Proofs.FsmProofs Proofs.FsmStutterProofs.
+
+Theorem C03_idle_iteration_invisible : forall (c : ctrl) (i : input),
+  In c reach -> quiescent c = true -> is_idle i = true -> cstep c i = (c, []).
+Proof. exact idle_step. Qed.
+Print Assumptions C03_idle_iteration_invisible.
+
+Theorem C03_same_up_to_idle_iterations : forall (r : bool) (is1 is2 : list input),
+  forallb legal_input is1 = true -> forallb legal_input is2 = true ->
+  strip (init r) is1 = strip (init r) is2 ->
+  FsmProofs.run (init r) is1 = FsmProofs.run (init r) is2 /\ trace (init r) is1 = trace (init r) is2.
+Proof. exact same_up_to_idle. Qed.
+Print Assumptions C03_same_up_to_idle_iterations.
